@@ -50,7 +50,7 @@ var queries = []string{
 // which every INSERT/UPDATE/DELETE on t fails with "file  does not exist". That
 // is a defect outside this property (the history could no longer change t), so
 // the generator uses the equivalent common table expression instead.
-const avoidFromSubqueryPoisonsFileInfo = true
+const avoidFromSubqueryPoisonsFileInfo = false
 
 var fromSubquery = func() string {
 	if avoidFromSubqueryPoisonsFileInfo {
